@@ -253,3 +253,29 @@ def seq_circuits():
                                                              ("n2", "xnor", ["s2", "c1"]), ("o", "nor", ["s0", "s1", "s2"], True), ("p", "buf", ["n1"], True)],
                                   {"f0": ("n0", "s0"), "f1": ("n1", "s1"), "f2": ("n2", "s2")}, CKDQ, "D", "Q", {"CK": "CK"}), "D", "Q"))
     return S
+
+
+# ------------------------------------------------------------- F-small: exhaustive small scope
+def f_small(max_gates=2, types=GATES, consts=False):
+    """EVERY circuit with inputs {a, b} (+ constant k1 if consts) and up to max_gates gates, each gate any type and any
+    non-empty fan-in subset of the earlier nodes (buf/not: single fan-in); outputs = every node without load + the last gate."""
+    out = []
+    base = ["a", "b"] + (["k1"] if consts else [])
+
+    def rec(gates, pool):
+        if gates:
+            used = {u for _, _, fi in gates for u in fi}
+            nodes = [("a", "input", []), ("b", "input", [])] + ([("k1", "1", [])] if consts else [])
+            nodes += [(n, t, fi, (n not in used) or n == gates[-1][0]) for n, t, fi in gates]
+            cid = ("small",) + tuple((t, tuple(fi)) for _, t, fi in gates)
+            out.append((cid, mkspec("small", nodes)))
+        if len(gates) == max_gates:
+            return
+        g = f"g{len(gates)}"
+        for t in types:
+            for r in range(1, (1 if t in ("buf", "not") else min(3, len(pool))) + 1):
+                for fi in itertools.combinations(pool, r):
+                    rec(gates + [(g, t, list(fi))], pool + [g])
+
+    rec([], base)
+    return out
